@@ -1198,6 +1198,14 @@ def _schedule(p0, nseasons, start, end):
                 continue
             seen.add(key)
             out.append([key, d])
+    # entries dated outside the simulated window, spread so that an index computed from a date offset (instead of a date look-up) would land on many
+    # different days of the run: they must have no effect at all
+    for o in (1, 2, 3, 5, 8, 13, 21, 34, 55, 89, 144, 233, 377):
+        for dt, d in ((start - pd.Timedelta(days=o), 17.0), (end + pd.Timedelta(days=o), 19.0)):
+            key = dt.strftime("%Y/%m/%d")
+            if key not in seen:
+                seen.add(key)
+                out.append([key, d])
     return out
 
 
